@@ -688,7 +688,18 @@ impl Sim {
         let env = mk_env(0, None, &self.me);
         let result = match kind {
             "ok" => {
-                let data = prost::Message::encode_to_vec(&staking::ack::MsgTransferResponse { sequence: seq });
+                // ibc.applications.transfer.v1.MsgTransferResponse { sequence = 1: uint64 }, encoded here from the
+                // definition rather than with the contract's own copy of the type
+                let mut data: Vec<u8> = vec![];
+                if seq != 0 {
+                    data.push(0x08);
+                    let mut v = seq;
+                    while v >= 0x80 {
+                        data.push((v as u8 & 0x7f) | 0x80);
+                        v >>= 7;
+                    }
+                    data.push(v as u8);
+                }
                 SubMsgResult::Ok(SubMsgResponse { events: vec![], data: Some(Binary::from(data)) })
             }
             "nodata" => SubMsgResult::Ok(SubMsgResponse { events: vec![], data: None }),
